@@ -615,7 +615,9 @@ func runC02(r *Run, replay *Case) {
 		r.Add(roundtripCase(src, i%2 == 0))
 	}
 	vals := append([]string{}, hostileStrings...)
-	nbs := []c01Nb{{"plain", "a ", " b"}, {"none", "", ""}, {"entity", "a &amp; b; ", " c"}, {"lt", "&lt;b&gt; ", " &lt;/b&gt;"}, {"quote", "say &quot;hi&quot; ", " &#39;x&#39;"}}
+	nbs := []c01Nb{{"plain", "a ", " b"}, {"none", "", ""}, {"entity", "a &amp; b; ", " c"}, {"lt", "&lt;b&gt; ", " &lt;/b&gt;"}, {"quote", "say &quot;hi&quot; ", " &#39;x&#39;"},
+		// a static brace directly after the placeholder's closing braces (the last member of an object literal, the last declaration of a rule)
+		{"brace-after", "{n:", "}"}, {"brace-after-semi", ".b{color:", "};"}}
 	vals = append(vals, "</textarea><b>x</b>", "</title><meta name=x>", "Q&amp;A", "&lt;")
 	// values of several lines: their line breaks and the indentation of their continuation lines are part of the value
 	vals = append(vals, "<pre>if x {\n\treturn\n}</pre>", "line one\nline two\n  indented three", "<ul>\n<li>a</li>\n</ul>", "a\n\nb", "<textarea>x\ny</textarea>")
